@@ -86,34 +86,12 @@ theorem keep_not_nondet (c : Cfg) (hr : c.rwRand = true) (ht : c.rwTime = true)
     cases hu' : u
     · have h0 := hu hu'
       simp only [h0, beq_self_eq_true, if_true] at h
-      split at h
-      · -- args = [number literal v]
-        rename_i v
-        split at h
-        · cases h
-        · rename_i hp
-          cases h
-          simp [walkList_cons, walkList_nil, walk_lit, applyTr, hp]
-      · rename_i hne
+      cases hb : blobLenOfArgs args with
+      | some n => simp [hb] at h
+      | none =>
+        simp only [hb] at h
         cases h
-        simp only [applyTr, Bool.not_false, Bool.true_and]
-        split
-        · rename_i v heq
-          -- the walked argument list is a single number literal: so was the original
-          exfalso
-          cases args with
-          | nil => simp [walkList_nil] at heq
-          | cons x r =>
-            cases r with
-            | nil =>
-              simp only [walkList_cons, walkList_nil] at heq
-              simp only [Nodes.cons.injEq, and_true] at heq
-              have := walk_lit_number c st' x v heq
-              exact hne v (by rw [this])
-            | cons y r2 =>
-              simp only [walkList_cons, walkList_nil] at heq
-              simp at heq
-        · rfl
+        simp [applyTr, blobLenOfArgs_walkList, hb]
     · simp
 
 mutual
@@ -229,10 +207,10 @@ replaces (`blobLen v ≠ none`). Whether a token is a number literal is decided 
 false, by design: a literal above SQLite's maximum blob length is left alone because SQLite rejects
 it on every node alike (exercised on real SQLite by the tie). -/
 
-/-- as `nondetCall`, but ANY number literal argument of randomblob counts -/
+/-- as `nondetCall`, but ANY (signed) number literal argument of randomblob counts -/
 def nondetCallAnyLit (u : Bool) (name : String) (args : Nodes) : Bool :=
   match classify name with
-  | .randomblob => !u && (match args with | .cons (.lit "number" _) .nil => true | _ => false)
+  | .randomblob => !u && (blobArg args).isSome
   | _ => nondetCall u name args
 
 mutual
@@ -279,45 +257,55 @@ theorem digit_not_special (ch : Char) (h : '0' ≤ ch ∧ ch ≤ '9') : ch ≠ '
 
 theorem left_alone_decimal_is_too_big (cs : List Char) (n : Nat) (hne : cs ≠ [])
     (hdig : ∀ ch ∈ cs, '0' ≤ ch ∧ ch ≤ '9')
-    (hd : digitsVal cs = some n) : blobLen (String.ofList cs) = none ↔ n > maxBlobLength := by
-  unfold blobLen
+    (hd : digitsVal cs = some n) : blobBytes false (String.ofList cs) = none ↔ n > maxBlobLength := by
+  unfold blobBytes
   simp only [String.toList_ofList]
   have he : cs.isEmpty = false := by cases cs <;> simp_all
   simp only [he, Bool.false_eq_true, if_false, hd]
   by_cases h64 : n ≤ int64Max
-  · simp only [h64, if_true, Option.bind_some]
-    by_cases hb : n > maxBlobLength <;> simp [hb]
+  · simp only [h64, if_true]
+    unfold bytesOf
+    by_cases hb : n > maxBlobLength
+    · have : ((n : Int) > (maxBlobLength : Int)) := by omega
+      simp [this, hb]
+    · have h1 : ¬ ((n : Int) > (maxBlobLength : Int)) := by omega
+      simp only [h1, if_false, hb, iff_false]
+      split <;> simp
   · simp only [h64, if_false]
     have hbig : n > maxBlobLength := by unfold int64Max at h64; unfold maxBlobLength; omega
-    constructor
-    · intro _; exact hbig
-    · intro _
-      cases hf : floatBytes cs with
-      | none => rfl
-      | some m =>
-        -- floatBytes only returns values ≤ maxBlobLength, which the final bound lets through;
-        -- but the literal's value is n > maxBlobLength, so floatBytes cannot have accepted it
-        exfalso
-        unfold floatBytes at hf
-        have hp : parseDecimal cs = some (n, 0) := by
-          unfold parseDecimal
-          have hnoDot : ∀ ch ∈ cs, ch ≠ '.' ∧ ch ≠ 'e' ∧ ch ≠ 'E' := fun ch hch => digit_not_special ch (hdig ch hch)
-          have hnoE : cs.any (fun ch => ch == 'e' || ch == 'E') = false := by
-            rw [List.any_eq_false]; intro ch hch; have := hnoDot ch hch; simp [this.2.1, this.2.2]
-          have h1 : cs.takeWhile (fun ch => ch != 'e' && ch != 'E') = cs := by
-            apply takeWhile_all; intro ch hch; have := hnoDot ch hch; simp [this.2.1, this.2.2]
-          have h2 : cs.dropWhile (fun ch => ch != 'e' && ch != 'E') = [] := by
-            apply dropWhile_all; intro ch hch; have := hnoDot ch hch; simp [this.2.1, this.2.2]
-          have h3 : cs.takeWhile (· != '.') = cs := by
-            apply takeWhile_all; intro ch hch; have := hnoDot ch hch; simp [this.1]
-          have h4 : cs.dropWhile (· != '.') = [] := by
-            apply dropWhile_all; intro ch hch; have := hnoDot ch hch; simp [this.1]
-          have hd0 : digitsVal ([] : List Char) = some 0 := rfl
-          simp only [h1, h2, h3, h4, hnoE, he, List.drop_nil, List.isEmpty_nil, List.append_nil, Bool.false_and,
-            Bool.false_eq_true, if_false, hd, List.length_nil, hd0]
-          rfl
-        simp [hp] at hf
-        omega
+    have hp : parseDecimal cs = some (n, 0) := by
+      unfold parseDecimal
+      have hnoDot : ∀ ch ∈ cs, ch ≠ '.' ∧ ch ≠ 'e' ∧ ch ≠ 'E' := fun ch hch => digit_not_special ch (hdig ch hch)
+      have hnoE : cs.any (fun ch => ch == 'e' || ch == 'E') = false := by
+        rw [List.any_eq_false]; intro ch hch; have := hnoDot ch hch; simp [this.2.1, this.2.2]
+      have h1 : cs.takeWhile (fun ch => ch != 'e' && ch != 'E') = cs := by
+        apply takeWhile_all; intro ch hch; have := hnoDot ch hch; simp [this.2.1, this.2.2]
+      have h2 : cs.dropWhile (fun ch => ch != 'e' && ch != 'E') = [] := by
+        apply dropWhile_all; intro ch hch; have := hnoDot ch hch; simp [this.2.1, this.2.2]
+      have h3 : cs.takeWhile (· != '.') = cs := by
+        apply takeWhile_all; intro ch hch; have := hnoDot ch hch; simp [this.1]
+      have h4 : cs.dropWhile (· != '.') = [] := by
+        apply dropWhile_all; intro ch hch; have := hnoDot ch hch; simp [this.1]
+      have hd0 : digitsVal ([] : List Char) = some 0 := rfl
+      simp only [h1, h2, h3, h4, hnoE, he, List.drop_nil, List.isEmpty_nil, List.append_nil, Bool.false_and,
+        Bool.false_eq_true, if_false, hd, List.length_nil, hd0]
+      rfl
+    simp only [hp, Bool.false_eq_true, if_false]
+    have h1 : ¬ (n * 10 ^ (0 : Int).toNat < 1) := by simp; omega
+    have h2 : ¬ (n * 10 ^ (0 : Int).toNat ≤ maxBlobLength) := by simp; omega
+    have h3 : n ≠ 0 := by omega
+    have h4 : ¬ n ≤ maxBlobLength := by omega
+    simp [h3, h4, hbig]
+
+/-- hexadecimal literals are read as SQLite reads them: 16 digits with the top bit set are NEGATIVE
+(two's complement) and give ONE byte - they are pinned, not left alone; so are negative and zero
+lengths; one digit more is an error in SQLite and is left alone -/
+theorem hex_and_signed_literals :
+    blobBytes false "0xFFFFFFFFFFFFFFFF" = some 1 ∧ blobBytes false "0x8000000000000000" = some 1 ∧
+    blobBytes false "0x7FFFFFFFFFFFFFFF" = none ∧ blobBytes false "0x10000000000000000" = none ∧
+    blobBytes true "5" = some 1 ∧ blobBytes false "0" = some 1 ∧ blobBytes true "0x10" = some 1 ∧
+    blobBytes true "2.5" = some 1 ∧ blobBytes true "0x8000000000000000" = none ∧
+    blobLenOfArgs (.cons (.other "UnaryExpr:-" (.cons (.lit "number" "5") .nil)) .nil) = some 1 := by decide
 
 /-! ### nothing else changes -/
 
@@ -707,13 +695,156 @@ theorem noTargetList_clean : ∀ (ns : Nodes) (u : Bool), noTargetList ns = true
     exact ⟨noTarget_clean n u h.1, noTargetList_clean ns u h.2⟩
 end
 
+/-! #### a statement the rewriter reports unmodified held nothing to rewrite -/
+
+theorem visitCall_unmodified (c : Cfg) (hr : c.rwRand = true) (ht : c.rwTime = true)
+    (st st1 : St) (name : String) (args : Nodes) (tr : ArgTr) (u : Bool)
+    (hu : u = false → st.ordered = 0) (hm : st.modified = false)
+    (h : visitCall c st name args = .keep tr st1) (hm1 : st1.modified = false) :
+    nondetCall u name args = false ∧ tr = .none ∧ st1 = st := by
+  unfold visitCall at h
+  unfold nondetCall
+  simp only [hr, ht, Bool.true_and, Bool.and_true] at h
+  cases hk : classify name <;> simp only [hk] at h ⊢
+  · simp only [if_true] at h; cases h; simp at hm1
+  · cases args with
+    | nil => simp [Nodes.length] at h; exact ⟨rfl, h.1.symm, h.2.symm⟩
+    | cons f r => simp [Nodes.length] at h; obtain ⟨_, h2⟩ := h; subst h2; simp at hm1
+  · cases args with
+    | nil => simp [Nodes.length] at h; exact ⟨rfl, h.1.symm, h.2.symm⟩
+    | cons a r =>
+      cases r with
+      | nil => simp [Nodes.length] at h; exact ⟨rfl, h.1.symm, h.2.symm⟩
+      | cons b r2 => simp [Nodes.length] at h; obtain ⟨_, h2⟩ := h; subst h2; simp at hm1
+  · split at h
+    · cases h
+    · rename_i hc
+      cases h
+      refine ⟨?_, rfl, rfl⟩
+      cases hu' : u
+      · exact absurd (by simp [hu hu']) hc
+      · rfl
+  · split at h
+    · cases hb : blobLenOfArgs args with
+      | some n => simp [hb] at h
+      | none => simp only [hb] at h; cases h; exact ⟨by simp [hb], rfl, rfl⟩
+    · rename_i hc
+      cases h
+      refine ⟨?_, rfl, rfl⟩
+      cases hu' : u
+      · exact absurd (by simp [hu hu']) hc
+      · rfl
+  · cases h; simp
+
+theorem visitCall_modified_mono (c : Cfg) (st : St) (name : String) (args : Nodes) :
+    (∀ tr st1, visitCall c st name args = .keep tr st1 → st1.modified = false → st.modified = false) ∧
+    (∀ m st1, visitCall c st name args = .replace m st1 → st1.modified = true) := by
+  constructor
+  · intro tr st1 h hm
+    unfold visitCall at h
+    repeat' split at h
+    all_goals first | (cases h; simp at hm) | (cases h; exact hm) | cases h
+  · intro m st1 h
+    unfold visitCall at h
+    repeat' split at h
+    all_goals first | (cases h; rfl) | cases h
+
+mutual
+theorem walk_modified_mono (c : Cfg) :
+    ∀ (n : Node) (st : St), (walk c st n).2.modified = false → st.modified = false
+  | .call name args extra, st, h => by
+    rw [walk] at h
+    cases hv : visitCall c st name args with
+    | replace m st1 => rw [hv] at h; simp only at h; rw [(visitCall_modified_mono c st name args).2 m st1 hv] at h; cases h
+    | keep tr st1 =>
+      rw [hv] at h
+      simp only at h
+      have h2 := walkList_modified_mono c extra _ h
+      have h1 := walkList_modified_mono c args _ h2
+      exact (visitCall_modified_mono c st name args).1 tr st1 hv h1
+  | .lit _ _, st, h => by simpa [walk] using h
+  | .ident _, st, h => by simpa [walk] using h
+  | .ord kids, st, h => by
+    rw [walk] at h; simp only at h
+    have := walkList_modified_mono c kids _ h
+    simpa using this
+  | .ret kids, st, h => by
+    rw [walk] at h; simp only at h
+    have := walkList_modified_mono c kids _ h
+    simpa using this
+  | .other _ kids, st, h => by
+    rw [walk] at h; simp only at h
+    exact walkList_modified_mono c kids _ h
+theorem walkList_modified_mono (c : Cfg) :
+    ∀ (ns : Nodes) (st : St), (walkList c st ns).2.modified = false → st.modified = false
+  | .nil, st, h => by simpa [walkList_nil] using h
+  | .cons n ns, st, h => by
+    rw [walkList_cons] at h
+    simp only at h
+    exact walk_modified_mono c n st (walkList_modified_mono c ns _ h)
+end
+
+mutual
+theorem walk_unmodified_clean (c : Cfg) (hr : c.rwRand = true) (ht : c.rwTime = true) :
+    ∀ (n : Node) (st : St) (u : Bool), (u = false → st.ordered = 0) →
+      (walk c st n).2.modified = false → clean u n = true
+  | .call name args extra, st, u, hu, h => by
+    have hst := walk_modified_mono c _ st h
+    rw [walk] at h
+    cases hv : visitCall c st name args with
+    | replace m st1 => rw [hv] at h; simp only at h; rw [(visitCall_modified_mono c st name args).2 m st1 hv] at h; cases h
+    | keep tr st1 =>
+      rw [hv] at h
+      simp only at h
+      have h2 := walkList_modified_mono c extra _ h
+      have h1 := walkList_modified_mono c args _ h2
+      obtain ⟨hn, _, hst1⟩ := visitCall_unmodified c hr ht st st1 name args tr u hu hst hv h1
+      subst hst1
+      have ha := walkList_unmodified_clean c hr ht args st1 u hu h2
+      have he := walkList_unmodified_clean c hr ht extra (walkList c st1 args).2 u
+        (fun hh => by rw [walkList_ordered]; exact hu hh) h
+      simp [clean, hn, ha, he]
+  | .lit _ _, _, _, _, _ => by simp [clean]
+  | .ident _, _, _, _, _ => by simp [clean]
+  | .ord kids, st, u, _, h => by
+    rw [walk] at h; simp only at h
+    simp only [clean]
+    exact walkList_unmodified_clean c hr ht kids _ true (by simp) h
+  | .ret kids, st, u, hu, h => by
+    rw [walk] at h; simp only at h
+    simp only [clean]
+    exact walkList_unmodified_clean c hr ht kids _ u (by simpa using hu) h
+  | .other _ kids, st, u, hu, h => by
+    rw [walk] at h; simp only at h
+    simp only [clean]
+    exact walkList_unmodified_clean c hr ht kids _ u hu h
+theorem walkList_unmodified_clean (c : Cfg) (hr : c.rwRand = true) (ht : c.rwTime = true) :
+    ∀ (ns : Nodes) (st : St) (u : Bool), (u = false → st.ordered = 0) →
+      (walkList c st ns).2.modified = false → cleanList u ns = true
+  | .nil, _, _, _, _ => by simp [cleanList]
+  | .cons n ns, st, u, hu, h => by
+    rw [walkList_cons] at h
+    simp only at h
+    have h1 := walkList_modified_mono c ns _ h
+    simp only [cleanList, Bool.and_eq_true]
+    exact ⟨walk_unmodified_clean c hr ht n st u hu h1,
+      walkList_unmodified_clean c hr ht ns _ u (fun hh => by rw [walk_ordered]; exact hu hh) h⟩
+end
+
+/-- When the rewriter reports a statement UNMODIFIED (and `Process` therefore replicates the original
+text), the original held no non-deterministic call. -/
+theorem unmodified_clean (c : Cfg) (hr : c.rwRand = true) (ht : c.rwTime = true) (n : Node)
+    (h : (rewrite c n).2.modified = false) : clean false n = true :=
+  walk_unmodified_clean c hr ht n {} false (fun _ => rfl) h
+
 def nineNames : List String :=
   ["date", "time", "datetime", "julianday", "unixepoch", "strftime", "timediff", "random", "randomblob"]
 
 /-- The parser (and `strings.ToLower`) as a parameter with ONE assumed law, a fact about tokenising
 SQL: when a parsed statement holds a call to one of the nine functions, the lower-cased text holds
 that function's name followed - after closing quote characters and white space only - by `(` or
-by the start of a comment. -/
+by the start of a comment. `parse` yields the statements of the text (what the splitting of
+`splitStatements` and the parser make of it). -/
 structure TextSem where
   parse : String → Option (List Node)
   lowered : String → List Char
@@ -721,19 +852,31 @@ structure TextSem where
     ∃ fn ∈ nineNames, ∃ pre q rest, lowered text = pre ++ (fn.toList ++ (q ++ rest)) ∧
       (∀ ch ∈ q, isSkip ch = true) ∧ opensCall rest = true
 
-/-- the statements `Process` replicates for a text, as trees: rewritten when the pre-filters let the
-text through (`other` = the RETURNING / EXPLAIN filters), untouched otherwise; `none` = the parser
-rejects the text (passed through unchanged by design) -/
+/-- what `Process` replicates for ONE statement: the rewritten tree when the rewriter reports a
+modification, the ORIGINAL otherwise -/
+def replicated (c : Cfg) (n : Node) : Node :=
+  if (rewrite c n).2.modified then (rewrite c n).1 else n
+
+/-- the statements `Process` replicates for a text, as trees: each statement rewritten-or-original
+(`replicated`) when the pre-filters let the text through (`other` = the RETURNING / EXPLAIN filters),
+all original otherwise; `none` = the parser rejects the text (passed through unchanged by design) -/
 def processTrees (c : Cfg) (P : TextSem) (other : Bool) (text : String) : Option (List Node) :=
   (P.parse text).map fun trees =>
     if containsCall timeTargets (P.lowered text) || containsCall randTargets (P.lowered text) || other
-    then trees.map fun n => (rewrite c n).1
+    then trees.map (replicated c)
     else trees
 
+theorem replicated_clean (c : Cfg) (hr : c.rwRand = true) (ht : c.rwTime = true) (n : Node) :
+    clean false (replicated c n) = true := by
+  unfold replicated
+  cases hm : (rewrite c n).2.modified
+  · simpa using unmodified_clean c hr ht n hm
+  · simpa using no_nondet_left c hr ht n
+
 /-- Process-level statement: for every text the parser accepts, every statement that is replicated
-is free of non-deterministic calls - whether the pre-filter let the text through (then by
-`no_nondet_left`) or not (then, by the tokenising law and `prefilter_complete`, it held no call to
-any of the nine functions in the first place). -/
+- rewritten, or original because the rewriter reported no modification, or original because the
+pre-filter did not let the text through - is free of non-deterministic calls (by `no_nondet_left`,
+`unmodified_clean`, and the tokenising law with `prefilter_complete`, respectively). -/
 theorem process_no_nondet_left (c : Cfg) (hr : c.rwRand = true) (ht : c.rwTime = true)
     (P : TextSem) (other : Bool) (text : String) (out : List Node)
     (h : processTrees c P other text = some out) : ∀ n ∈ out, clean false n = true := by
@@ -747,7 +890,7 @@ theorem process_no_nondet_left (c : Cfg) (hr : c.rwRand = true) (ht : c.rwTime =
     · subst h
       simp only [List.mem_map] at hn
       obtain ⟨m, _, rfl⟩ := hn
-      exact no_nondet_left c hr ht m
+      exact replicated_clean c hr ht m
     · rename_i hf
       subst h
       simp only [Bool.or_eq_true, not_or, Bool.not_eq_true] at hf
@@ -769,6 +912,21 @@ theorem process_no_nondet_left (c : Cfg) (hr : c.rwRand = true) (ht : c.rwTime =
         · have := h1 "timediff" (by simp); rw [this] at hf; simp at hf
         · have := h2 "random" (by simp); rw [this] at hf; simp at hf
         · have := h2 "randomblob" (by simp); rw [this] at hf; simp at hf
+
+/-- `TextSem` is inhabited non-trivially: a one-text language whose statement holds a call -/
+def demoText : TextSem where
+  parse t := if t = "select random ()" then some [.other "SelectStatement" (.cons (.call "random" .nil .nil) .nil)] else none
+  lowered t := t.toList
+  call_shape := by
+    intro text trees n hp hn _
+    by_cases ht : text = "select random ()"
+    · subst ht
+      exact ⟨"random", by simp [nineNames], "select ".toList, [' '], "()".toList, by decide, by decide, by decide⟩
+    · simp [ht] at hp
+
+example : (processTrees ⟨true, true, fun _ => 7, "0"⟩ demoText false "select random ()").map
+      (fun ts => ts.map (clean false)) = some [true] ∧
+    (demoText.parse "select random ()").map (fun ts => ts.map (clean false)) = some [false] := by decide
 
 example : containsRandom "insert into t values(random /* x */ ())" = true ∧
     containsTime "select \"datetime\" ('now')" = true ∧
